@@ -48,7 +48,26 @@ func (b *builder) name(prefix string) string {
 
 var descPool = []string{"", "", "a description", "line one\nline two", "with, punctuation; and: symbols (1|2) [x]", "  padded  "}
 
-func (b *builder) desc() string { return descPool[b.r.Below(len(descPool))] }
+// free text as it reaches a DBC string: line breaks of every kind, tabs, trailing blanks, a percent sign,
+// non-ASCII letters (a backslash makes the text inexpressible: such cases are run, their differences tolerated)
+var textPool = []string{"saved on Windows\r\nsecond line", "lone\rcarriage return", "\n", "tab\there", "trailing  ", "100 % of it",
+	"Gr\u00fc\u00dfe \u00b0C \u00b5s", "\r\n", "a\r\n\r\nb"}
+
+func (b *builder) text(plain []string) string {
+	switch b.r.Below(12) {
+	case 0, 1, 2:
+		b.tag("text-special")
+		return textPool[b.r.Below(len(textPool))]
+	case 3:
+		if b.r.Chance(1, 6) {
+			b.tag("text-backslash")
+			return "back\\slash"
+		}
+	}
+	return plain[b.r.Below(len(plain))]
+}
+
+func (b *builder) desc() string { return b.text(descPool) }
 
 func (b *builder) floatVal() float64 {
 	pool := []float64{0, 1, -1, 0.5, 0.1, 2, 10, 100, -40, 273.15, 0.001, 1e6, 3.75, -0.25, 65535}
@@ -70,7 +89,7 @@ func (b *builder) makeAttributes() {
 		name := b.name("att")
 		switch b.r.Below(5) {
 		case 0:
-			b.atts = append(b.atts, acmelib.NewStringAttribute(name, []string{"", "dflt", "two words"}[b.r.Below(3)]))
+			b.atts = append(b.atts, acmelib.NewStringAttribute(name, b.text([]string{"", "dflt", "two words"})))
 			b.tag("attr-string")
 		case 1:
 			mn := b.r.Below(100) - 50
@@ -144,7 +163,7 @@ func (b *builder) assignSome(e assignable, kind string) {
 		var v any
 		switch a.Type() {
 		case acmelib.AttributeTypeString:
-			v = []string{"", "v", "some text"}[b.r.Below(3)]
+			v = b.text([]string{"", "v", "some text"})
 		case acmelib.AttributeTypeInteger:
 			ia, _ := a.ToInteger()
 			if span := ia.Max() - ia.Min(); span > 0 && span < 1<<40 {
@@ -237,7 +256,7 @@ func (b *builder) makePools() {
 			}
 		}
 	}
-	for _, sym := range []string{"km/h", "degC", "%", "", "m s", " ", " km/h ", "x "} {
+	for _, sym := range []string{"km/h", "degC", "%", "", "m s", " ", " km/h ", "x ", "\u00b0C", "m\ts", "1\r\n2", "rpm\r"} {
 		if b.r.Chance(1, 2) {
 			b.units = append(b.units, acmelib.NewSignalUnit(b.name("unit"), acmelib.SignalUnitKindCustom, sym))
 		}
@@ -253,13 +272,44 @@ func (b *builder) makePools() {
 			if !used[idx] {
 				used[idx] = true
 				b.n++
-				e.AddValue(acmelib.NewSignalEnumValue(fmt.Sprintf("VAL %d", b.n), idx))
+				vn := fmt.Sprintf("VAL %d", b.n)
+				if b.r.Chance(1, 6) {
+					vn = fmt.Sprintf("%s %d", textPool[b.r.Below(len(textPool))], b.n)
+					b.tag("text-special")
+				}
+				e.AddValue(acmelib.NewSignalEnumValue(vn, idx))
 			}
 		}
 		if b.r.Chance(1, 3) {
 			e.SetMinSize(1 + b.r.Below(8))
 		}
 		b.enums = append(b.enums, e)
+	}
+	if b.r.Chance(1, 3) {
+		// two enums whose value lists are prefix / extension of one another (same names and indexes), listed in
+		// either order, sometimes with different minimum sizes; a third one equal to the shorter
+		short := acmelib.NewSignalEnum(b.name("enum_short"))
+		long := acmelib.NewSignalEnum(b.name("enum_long"))
+		n := 1 + b.r.Below(3)
+		for i := 0; i < n+1+b.r.Below(2); i++ {
+			nm := []string{"OFF", "ON", "ERROR", "SNA", "INIT"}[i]
+			if i < n {
+				short.AddValue(acmelib.NewSignalEnumValue(nm, i))
+			}
+			long.AddValue(acmelib.NewSignalEnumValue(nm, i))
+		}
+		if b.r.Chance(1, 3) {
+			short.SetMinSize(3 + b.r.Below(4))
+		}
+		if b.r.Chance(1, 3) {
+			long.SetMinSize(3 + b.r.Below(4))
+		}
+		if b.r.Chance(1, 2) {
+			b.enums = append([]*acmelib.SignalEnum{long, short}, b.enums...)
+		} else {
+			b.enums = append([]*acmelib.SignalEnum{short, long}, b.enums...)
+		}
+		b.tag("enum-prefix-pair")
 	}
 	if len(b.enums) >= 2 && b.r.Chance(1, 3) {
 		// two distinct enums with the same values (DBC can only tell them apart by use)
@@ -275,7 +325,11 @@ func (b *builder) makePools() {
 func (b *builder) leaf() acmelib.Signal {
 	var sig acmelib.Signal
 	if len(b.enums) > 0 && b.r.Chance(1, 3) {
-		s, err := acmelib.NewEnumSignal(b.name("en"), b.enums[b.r.Below(len(b.enums))])
+		en := b.enums[b.r.Below(len(b.enums))]
+		if b.tags["enum-prefix-pair"] > 0 && b.r.Chance(1, 2) { // the prefix / extension pair sits in front
+			en = b.enums[b.r.Below(2)]
+		}
+		s, err := acmelib.NewEnumSignal(b.name("en"), en)
 		if err != nil {
 			return nil
 		}
